@@ -295,8 +295,9 @@ double Interpolation::Local_Minimum(double x_1, double x_2)
 	libphysica::Check_For_Error(x_2 < x_1, "Interpolation::Local_Minimum()", "Faulty order of arguments.");
 	double f_left  = Interpolate(x_1);
 	double f_right = Interpolate(x_2);
-	int i_1		   = Locate(x_1);
-	int i_2		   = Locate(x_2);
+	// Knots i_1+1,...,i_2 lie between the limits. A limit in the extrapolation zone has all knots on one side.
+	int i_1 = (x_1 < domain[0]) ? -1 : ((x_1 > domain[1]) ? N - 1 : Locate(x_1));
+	int i_2 = (x_2 < domain[0]) ? -1 : ((x_2 > domain[1]) ? N - 1 : Locate(x_2));
 	if(i_1 == i_2)
 		return std::min(f_left, f_right);
 	else
@@ -312,8 +313,9 @@ double Interpolation::Local_Maximum(double x_1, double x_2)
 	libphysica::Check_For_Error(x_2 < x_1, "Interpolation::Local_Minimum()", "Faulty order of arguments.");
 	double f_left  = Interpolate(x_1);
 	double f_right = Interpolate(x_2);
-	int i_1		   = Locate(x_1);
-	int i_2		   = Locate(x_2);
+	// Knots i_1+1,...,i_2 lie between the limits. A limit in the extrapolation zone has all knots on one side.
+	int i_1 = (x_1 < domain[0]) ? -1 : ((x_1 > domain[1]) ? N - 1 : Locate(x_1));
+	int i_2 = (x_2 < domain[0]) ? -1 : ((x_2 > domain[1]) ? N - 1 : Locate(x_2));
 	if(i_1 == i_2)
 		return std::max(f_left, f_right);
 	else
